@@ -332,8 +332,8 @@ def hugehead_family(rnd, quick):
             steps.append({"seg": s})
             left -= s
         c = h1gen.assemble(reqs, progs, steps=steps, epilogue=True)
-        if pad + 60 < 131072:
-            # fits: not malformed
+        if c["gt"][0]["headlen"] < 131072:
+            # the head fits into the read buffer: not malformed (the generator labels every "hugehead" request as rejected)
             continue
         c["origin"] = "hugehead"
         cases.append(c)
